@@ -1105,10 +1105,11 @@ func callBuiltin(caller *frame, callpos token.Pos, fn *ssa.Builtin, args []value
 	panic("unknown built-in: " + fn.Name())
 }
 
-func rangeIter(i *interpreter, x value, t types.Type) iter {
+func rangeIter(fr *frame, x value, t types.Type) iter {
+	i := fr.i
 	switch x := x.(type) {
 	case *smap:
-		return &smapIter{m: x, ord: x.order(i)}
+		return &smapIter{m: x, ord: x.order(i, fr.fn)}
 	case string, *SymStr:
 		return &strIter{i: i, b: strBytes(x)}
 	}
